@@ -245,6 +245,9 @@ def describe(job, res=None):
                                      if p.get('decoys') else '') for p in s['perturb']],
              'call': c['kind'] + ':' + (c.get('path_kind') or c.get('stream_kind') or 'argv'),
              'inputs': c['inputs'], 'options': c['options'], 'param': c.get('param'),
+             **({'molecules': [[m['input'], m['options'], m.get('param'), m['stream_kind']] for m in c['mols']],
+                 'schedule': c['schedule'], 'share_parameters': c.get('share_parameters')}
+                if c.get('mols') else {}),
              'write_pka': c.get('write_pka', True)}
         if s.get('fault'):
             d['fault'] = s['fault']['kind']
